@@ -38,6 +38,39 @@ def interp (x : Rat) : List (Rat × Rat) → Rat
   | [] => 0
   | (x0, y0) :: rest => if x ≤ x0 then y0 else interpFrom x x0 y0 rest
 
+/-- abscissa / ordinate of the last breakpoint -/
+def lastX : Rat → List (Rat × Rat) → Rat
+  | x0, [] => x0
+  | _, (x1, _) :: rest => lastX x1 rest
+
+def lastY : Rat → List (Rat × Rat) → Rat
+  | y0, [] => y0
+  | _, (_, y1) :: rest => lastY y1 rest
+
+/-- slope of the first segment, `(fp[1]-fp[0])/(xp[1]-xp[0])`; 0 for fewer than two points -/
+def slopeFirst : List (Rat × Rat) → Rat
+  | (x0, y0) :: (x1, y1) :: _ => (y1 - y0) / (x1 - x0)
+  | _ => 0
+
+/-- slope of the last segment, `(fp[-1]-fp[-2])/(xp[-1]-xp[-2])`; 0 for a single point -/
+def slopeLastFrom (x0 y0 : Rat) : List (Rat × Rat) → Rat
+  | [] => 0
+  | (x1, y1) :: rest => match rest with
+    | [] => (y1 - y0) / (x1 - x0)
+    | _ :: _ => slopeLastFrom x1 y1 rest
+
+/-- `_interp_extrapolate` of the proposed repair (fixes/C06-volcurve-extrapolate): `np.interp(x, xp, fp)`
+`+ min(x - xp[0], 0)·(first slope) + max(x - xp[-1], 0)·(last slope)` when the curve has more than one point -/
+def interpX (x : Rat) : List (Rat × Rat) → Rat
+  | [] => 0
+  | (x0, y0) :: rest =>
+    interp x ((x0, y0) :: rest)
+      + (if x - x0 < 0 then x - x0 else 0) * slopeFirst ((x0, y0) :: rest)
+      + (if 0 < x - lastX x0 rest then x - lastX x0 rest else 0) * slopeLastFrom x0 y0 rest
+
+/-- the curve lookup of a tank: clamping `np.interp` (code at the pinned HEAD) or the extrapolating repair -/
+def cinterp (extrap : Bool) (x : Rat) (c : List (Rat × Rat)) : Rat := if extrap then interpX x c else interp x c
+
 /-- the curve read the other way round: `np.interp(V, volume_y, level_x)` is `interp V (swapPts curve)` -/
 def swapPts (c : List (Rat × Rat)) : List (Rat × Rat) := c.map fun p => (p.2, p.1)
 
@@ -50,6 +83,9 @@ structure Tank where
   diam : Rat
   /-- `(level, volume)` points of the volume curve, `none` for a cylindrical tank -/
   curve : Option (List (Rat × Rat))
+  /-- which curve lookup the implementation uses (probed by the harness on the real `Tank.get_volume`):
+  `false` = `np.interp` clamps outside the curve, `true` = the end segments are continued -/
+  extrap : Bool := false
   deriving Repr, Inhabited
 
 /-- cross-section `π/4·d²` as `TankLevelCondition.evaluate` and `get_volume` compute it -/
@@ -65,7 +101,7 @@ def level (t : Tank) (head : Rat) : Rat := head - t.elev
 def getVolume (pi : Rat) (t : Tank) (lvl : Rat) : Rat :=
   match t.curve with
   | none => area pi t * lvl
-  | some c => interp lvl c
+  | some c => cinterp t.extrap lvl c
 
 /-- `cur_level` of `update_tank_heads`: `tank.level` when `head == _prev_head`, else `_prev_head - (head - level)` -/
 def curLevel (t : Tank) (prevHead head : Rat) : Rat :=
@@ -79,9 +115,9 @@ def updateHead (pi : Rat) (t : Tank) (prevHead head demand dt : Rat) : Rat :=
   | none => prevHead + 4 * dV / (pi * (t.diam * t.diam))
   | some c =>
     let cur := curLevel t prevHead head
-    let v0 := interp cur c
+    let v0 := cinterp t.extrap cur c
     let v1 := v0 + dV
-    let levelNew := interp v1 (swapPts c)
+    let levelNew := cinterp t.extrap v1 (swapPts c)
     prevHead + (levelNew - cur)
 
 /-! ### conditions -/
@@ -160,8 +196,8 @@ def evalLevel (pi : Rat) (t : Tank) (c : LevelCond) (head : Rat) (demand : Optio
           | .head =>
             let thrLevel := c.thr - t.elev
             let lvl := cur - t.elev
-            ⟨state, ((interp lvl crv - interp thrLevel crv) / q).floor, cur, false⟩
-          | .level => ⟨state, ((interp cur crv - interp c.thr crv) / q).floor, cur, false⟩
+            ⟨state, ((cinterp t.extrap lvl crv - cinterp t.extrap thrLevel crv) / q).floor, cur, false⟩
+          | .level => ⟨state, ((cinterp t.extrap cur crv - cinterp t.extrap c.thr crv) / q).floor, cur, false⟩
   else ⟨state, 0, cur, false⟩
 
 /-! ### link status -/
